@@ -67,7 +67,7 @@ fn lgk_strategy(thorough: bool) -> impl Strategy<Value = u8> {
     }
 }
 
-fn case_strategy(thorough: bool) -> impl Strategy<Value = Case> {
+pub fn case_strategy(thorough: bool) -> impl Strategy<Value = Case> {
     let max_ops = if thorough { 6000 } else { 1500 };
     (lgk_strategy(thorough), any::<u64>()).prop_flat_map(move |(lg_k, perm_seed)| {
         // sweeps cost O(k): only for moderate k
@@ -264,7 +264,7 @@ fn readings(s: &HllSketch) -> [f64; 7] {
     ]
 }
 
-fn run_case(c: &Case, info: &mut CaseInfo) -> Result<(), Fail> {
+pub fn run_case(c: &Case, info: &mut CaseInfo) -> Result<(), Fail> {
     let lg_k = c.lg_k;
     let k = 1usize << lg_k;
     let mut model = HllModel::new(lg_k);
